@@ -3,6 +3,7 @@
 package main
 
 import (
+	"net/http/httptest"
 	"net/http"
 	"net/url"
 	"sort"
@@ -190,6 +191,35 @@ func runCook(c *ctx) {
 				cc.emitCookies(c, "logoutcallback", r4, ipath)
 				c.emit("jar", "after", "logoutcallback", "status", r4.Status, "names", jarNames(b), "cfgsecure", cc.secure, "sso", cc.sso)
 			}
+		}
+		// the same logouts issued THROUGH AN SSO PROXY: it relays /oauth2/logout/local and /oauth2/logout/frontchannel to the SSO server (a real HTTP hop), and the
+		// cookie-clearing answer of the server must reach the browser - after either, the domain-wide session cookie is gone from the jar
+		if cc.sso {
+			relay := httptest.NewServer(rp.h)
+			saveIng, saveURL := s.o.ingresses, s.o.ssoServerURL
+			appHost := "app." + strings.TrimPrefix(cc.domain, ".")
+			s.o.ingresses, s.o.ssoServerURL = []string{iu.Scheme + "://" + appHost}, relay.URL
+			prx := s.replicaMode("P-relay", "sso-proxy")
+			s.o.ingresses, s.o.ssoServerURL = saveIng, saveURL
+			for _, variant := range []string{"logoutlocal", "frontchannel"} {
+				pb := newBrowser()
+				if _, err := s.login(pb, rp, base, ""); err != nil {
+					panic(err)
+				}
+				sid := ""
+				if d := s.storedData(s.ticketOf(pb)); d != nil {
+					sid = d.ExternalSessionID
+				}
+				var r3 *response
+				if variant == "logoutlocal" {
+					r3 = pb.do(prx, "GET", iu.Scheme+"://"+appHost+"/oauth2/logout/local", nil)
+				} else {
+					r3 = pb.do(prx, "GET", iu.Scheme+"://"+appHost+"/oauth2/logout/frontchannel?sid="+url.QueryEscape(sid)+"&iss="+url.QueryEscape(s.idp.issuer), nil)
+				}
+				c.count("jar:via-proxy")
+				c.emit("jar", "after", variant, "status", r3.Status, "names", jarNames(pb), "cfgsecure", cc.secure, "sso", cc.sso, "via", "proxy", "stored", s.storedData(s.ticketOf(pb)) != nil)
+			}
+			relay.Close()
 		}
 		// error paths (C17 chains): a cookie-keeping browser follows 307s while the cause persists
 		s.replicaKey = []byte("K2-another-deployment-key-32byte")
